@@ -99,6 +99,15 @@ CHECKS = {
             'the table unchanged, malformed lines must end the run with a message, and nothing may be undefined behaviour.',
             'Worlds, counts and the special-line alphabet as listed; the harness links the same libwb.a, so exact string equality is required. Two known findings (2-D column shift, 3-D header column g) are pinned by reference outputs.',
             'DESIGN.md section 3 C17'),
+    'C18': ('exploration', 'E1',
+            'bounded exhaustive enumeration (full product of grid type x dim x cell counts 1..3|4 per axis x bound sets x worlds, output modes and thread counts round-robin | all modes) with the real gwb-grid main() run in-process; captured writer arrays and the parsed ASCII file against an independent lattice / closed-surface description of the requested mesh and a differential oracle against World::properties',
+            'The real gwb-grid main() is run for every grid file of the alphabet. The arrays it hands to the VTU writer are captured at full precision: node positions and cells must be exactly the requested '
+            'lattice (cartesian, chunk incl. one across the +-180 meridian: every lattice node once, every lattice cell once, valid VTK node order), a closed ring lattice (annulus) or, per radial level, a closed '
+            'surface of 12 n^2 quads with Euler characteristic 2 and total solid angle 4 pi, extruded radially (sphere); every connectivity index refers to an existing node; Depth is the distance below '
+            'the top; temperature, velocity, tag and every composition are bit-identical to World::properties at the node position and depth; --filtered and --by-tag outputs contain exactly the cells whose highest '
+            'node tag is selected, with unchanged node values; the written ASCII file is well-formed XML and equals the %.6g rendering of the arrays.',
+            'Only vtu_output_format = ASCII is parsed back; cell counts, bounds and worlds as listed. The tag rule is the one the tool implements and its help text describes.',
+            'DESIGN.md section 3 C18'),
 }
 NOT_YET = {}
 
